@@ -97,8 +97,16 @@ class X10n(protocol_base.IrProtocolBase):
 
             code = protocol_base.IrProtocolBase.decode(self, data, frequency)
 
-        if self._first_code is None and self._last_code is None:
-            raise DecodeError
+        if self._first_code is None:
+            # a repeat of the second frame while the key is held
+            if (
+                self._last_code is None or
+                code.function != self._last_code.function or
+                code.function[True:5:0] != code.checksum
+            ):
+                raise DecodeError
+
+            return self._last_code
 
         if code.function != self._first_code.function:
             self._first_code = None
